@@ -75,6 +75,11 @@ pub struct ThreadSt {
     pub spinning: bool,
     pub in_try: bool,
     pub prio: i32,
+    /// clock at the thread's last release fence (published by its later relaxed stores/RMWs)
+    pub rel_fence: Option<VClock>,
+    /// join of the location clocks the thread read with relaxed accesses (taken in by its next
+    /// acquire fence)
+    pub acq_pending: VClock,
 }
 
 #[derive(Debug, Clone, Default, Serialize)]
@@ -210,9 +215,37 @@ pub fn current() -> usize {
 // atomics
 // ------------------------------------------------------------------------------------------
 
+pub mod hint {
+    pub use super::spin_loop;
+    pub fn black_box<T>(x: T) -> T {
+        x
+    }
+}
+
 pub mod atomic {
     pub use super::AtomicU32;
     pub use core::sync::atomic::Ordering;
+
+    /// Fence as the C++/Rust model defines it through release sequences: a release fence makes the
+    /// thread's later relaxed stores carry its clock at the fence; an acquire fence takes in what
+    /// its earlier relaxed loads read from.
+    pub fn fence(o: Ordering) {
+        if !super::in_exec() || super::ex().aborting {
+            return;
+        }
+        let e = super::ex();
+        let c = e.current;
+        if super::is_acq(o) {
+            let p = e.threads[c].acq_pending;
+            super::vc_join(&mut e.threads[c].vc, &p);
+        }
+        if super::is_rel(o) {
+            e.threads[c].rel_fence = Some(e.threads[c].vc);
+        }
+        e.threads[c].vc[c] += 1;
+    }
+
+    pub fn compiler_fence(_o: Ordering) {}
 }
 
 use core::sync::atomic::Ordering;
@@ -253,6 +286,14 @@ impl AtomicU32 {
         vc_join(&mut e.threads[c].vc, &lc);
     }
 
+    /// a read that is not an acquire: remembered for a later acquire fence
+    fn relaxed_read_from(&self) {
+        let e = ex();
+        let c = e.current;
+        let lc = self.clock.get();
+        vc_join(&mut e.threads[c].acq_pending, &lc);
+    }
+
     fn tick(&self) {
         let e = ex();
         let c = e.current;
@@ -265,8 +306,9 @@ impl AtomicU32 {
         if is_rel(o) {
             self.clock.set(e.threads[c].vc);
         } else {
-            // a relaxed plain store starts a new, empty release sequence
-            self.clock.set([0; MAXT]);
+            // a relaxed plain store starts a new release sequence: empty, or headed by the thread's
+            // last release fence
+            self.clock.set(e.threads[c].rel_fence.unwrap_or([0; MAXT]));
         }
     }
 
@@ -277,8 +319,12 @@ impl AtomicU32 {
             let mut lc = self.clock.get();
             vc_join(&mut lc, &e.threads[c].vc);
             self.clock.set(lc);
+        } else if let Some(f) = e.threads[c].rel_fence {
+            let mut lc = self.clock.get();
+            vc_join(&mut lc, &f);
+            self.clock.set(lc);
         }
-        // relaxed RMW: continues the release sequence, location clock unchanged
+        // relaxed RMW: continues the release sequence, location clock otherwise unchanged
     }
 
     pub fn load(&self, o: Ordering) -> u32 {
@@ -288,6 +334,8 @@ impl AtomicU32 {
         }
         if is_acq(o) {
             self.acquire_from();
+        } else {
+            self.relaxed_read_from();
         }
         self.v.get()
     }
@@ -311,6 +359,8 @@ impl AtomicU32 {
         }
         if is_acq(o) {
             self.acquire_from();
+        } else {
+            self.relaxed_read_from();
         }
         self.release_rmw(o);
         self.tick();
@@ -327,6 +377,45 @@ impl AtomicU32 {
 
     pub fn fetch_sub(&self, val: u32, o: Ordering) -> u32 {
         self.rmw(o, |x| x.wrapping_sub(val))
+    }
+
+    // the rest of std's read-modify-write surface, so that a lock source using any of it still builds
+    pub fn fetch_or(&self, val: u32, o: Ordering) -> u32 {
+        self.rmw(o, |x| x | val)
+    }
+
+    pub fn fetch_and(&self, val: u32, o: Ordering) -> u32 {
+        self.rmw(o, |x| x & val)
+    }
+
+    pub fn fetch_xor(&self, val: u32, o: Ordering) -> u32 {
+        self.rmw(o, |x| x ^ val)
+    }
+
+    pub fn fetch_nand(&self, val: u32, o: Ordering) -> u32 {
+        self.rmw(o, |x| !(x & val))
+    }
+
+    pub fn fetch_max(&self, val: u32, o: Ordering) -> u32 {
+        self.rmw(o, |x| x.max(val))
+    }
+
+    pub fn fetch_min(&self, val: u32, o: Ordering) -> u32 {
+        self.rmw(o, |x| x.min(val))
+    }
+
+    /// exclusive access: no scheduling point, no clock effect (as with std, `&mut` proves there is no
+    /// concurrent access)
+    pub fn get_mut(&mut self) -> &mut u32 {
+        self.v.get_mut()
+    }
+
+    pub fn into_inner(self) -> u32 {
+        self.v.into_inner()
+    }
+
+    pub fn as_ptr(&self) -> *mut u32 {
+        self.v.as_ptr()
     }
 
     fn cas(&self, cur: u32, new: u32, succ: Ordering, fail: Ordering, weak: bool) -> Result<u32, u32> {
@@ -353,6 +442,8 @@ impl AtomicU32 {
             self.v.set(new);
             if is_acq(succ) {
                 self.acquire_from();
+            } else {
+                self.relaxed_read_from();
             }
             self.release_rmw(succ);
             self.tick();
@@ -360,6 +451,8 @@ impl AtomicU32 {
         } else {
             if is_acq(fail) {
                 self.acquire_from();
+            } else {
+                self.relaxed_read_from();
             }
             Err(old)
         }
@@ -652,7 +745,7 @@ pub fn run_execution(sched: Sched, events: Events, step_budget: u32, bodies: Vec
             Sched::Pct { prio, .. } => *prio.get(i).unwrap_or(&0) as i32,
             _ => 0,
         };
-        threads.push(ThreadSt { status: Status::Runnable, vc, yielder: core::ptr::null(), spinning: false, in_try: false, prio });
+        threads.push(ThreadSt { status: Status::Runnable, vc, yielder: core::ptr::null(), spinning: false, in_try: false, prio, rel_fence: None, acq_pending: [0; MAXT] });
     }
     let exec = Exec {
         threads,
